@@ -32,8 +32,10 @@ mod snapshot;
 mod cindex;
 mod cidecho;
 mod wire;
+mod inject;
 
 pub use snapshot::{PathSnap, Snapshot, SpaceSnap, StreamsSnap};
+pub use inject::{FrameProbe, Inject, StreamProbe};
 
 pub(crate) fn hex(b: &[u8]) -> String {
     if b.is_empty() {
